@@ -212,6 +212,15 @@ def run(prog, ctx):
         okw = pos_w is not None and pos_w[0] == "s" and pos_w[1] == PC and pos_w[2] == i_w and wt[1] == ("n", ROW)
         ok = okr_ and okw
         why = "read %s <- %s ; write-back %s <- %s" % (show(rt), show(rv), show(wt), show(wv))
+        if not ok:
+            # whole-pole (fancy-indexing) form: pole_values[:, :] = grid_values[:, POS] ... grid_values[n, POS] = hierarchized_values --
+            # the same position table POS selects the columns that are read and the entries that are written back, in the same order
+            full = ("slice", ("c", "None"), ("c", "None"), ("c", "None"))
+            pos_r2 = rv[2][2] if rv[0] == "s" and rv[1] == ("n", gv) and rv[2][0] == "tuple" and len(rv[2]) == 3 and rv[2][1] == full else None
+            read_all = rt in (("tuple", full, full), full) and pos_r2 is not None and pos_r2[0] == "n"
+            write_all = wt[0] == "tuple" and len(wt) == 3 and wt[1] == ("n", ROW) and wt[2] == pos_r2 and wv == ("n", HV)
+            if read_all and write_all:
+                ok = True
     ctx.check(ok, "C10.D2", R.key_of(hz, "pole-read-write-back"), hz.loc(writes[0]) if writes else hz.loc(),
               "pole value i is read from and surplus i is written back to pole_coordinates[i]",
               "hierarchisation does not read pole value i from / write surplus i back to the same position pole_coordinates[i]: " + why)
